@@ -44,6 +44,9 @@ struct Sink {
     /// an iterator was forgotten earlier in this sequence: ownership / structure failures from then on
     /// are C17's business as well
     after_forget: bool,
+    /// tokens of objects the cache has handed over to the caller by value (C06/C17: they must never be
+    /// seen inside the cache again — this also works for types without drop glue)
+    moved_out: std::collections::HashSet<u64>,
     failures: usize,
 }
 
@@ -117,6 +120,7 @@ impl Sink {
             stale: false,
             after_panic: false,
             after_forget: false,
+            moved_out: std::collections::HashSet::new(),
             failures: 0,
         };
         let p = exec::params_line();
@@ -143,6 +147,7 @@ impl Sink {
         self.stale = false;
         self.after_panic = false;
         self.after_forget = false;
+        self.moved_out.clear();
         self.stats.seqs += 1;
         *self.stats.hashers.entry(hkind.name().to_owned()).or_default() += 1;
         let l = if types::TRACK_K && types::TRACK_V {
@@ -301,6 +306,26 @@ impl Sink {
         if let Op::On { op: OpKind::It { forget: true, .. }, .. } = &line.op {
             self.after_forget = true;
         }
+        // objects moved out to the caller …
+        match &o.ret {
+            exec::Ret::OwnVal(Some(v)) => { self.moved_out.insert(v.tok); }
+            exec::Ret::OwnPair(Some((k, v))) | exec::Ret::MutBig(k, v, ..) => { self.moved_out.insert(k.tok); self.moved_out.insert(v.tok); }
+            exec::Ret::Items(kind, items) if !kind.borrowing() => {
+                for (k, v) in items.iter().flatten() {
+                    if k.tok != 0 { self.moved_out.insert(k.tok); }
+                    if v.tok != 0 { self.moved_out.insert(v.tok); }
+                }
+            }
+            _ => {}
+        }
+        // … must not be listed by the cache afterwards
+        if let Some(post) = &o.post {
+            if post.full && post.walk_err.is_none() {
+                if let Some(e) = post.ord.iter().find(|e| self.moved_out.contains(&e.k.tok) || self.moved_out.contains(&e.v.tok)) {
+                    fails.push(monitors::Fail { prop: "C06", msg: format!("the cache still lists entry {} whose key or value was already moved out to the caller", e.k.id) });
+                }
+            }
+        }
         if self.after_forget {
             let extra: Vec<monitors::Fail> = fails.iter().filter(|f| f.prop == "C06" || f.prop == "C07")
                 .map(|f| monitors::Fail { prop: "C17", msg: f.msg.clone() }).collect();
@@ -429,7 +454,8 @@ fn bucket_cap(b: usize) -> usize {
 
 /// One random-walk sequence under a profile.
 fn random_seq(sink: &mut Sink, rng: &mut Rng, prof: &Profile, hkind: HKind) {
-    let mut w = sink.begin_seq(hkind, &format!("profile={}", prof.name));
+    // very long sequences are replayed on the functional model only (see `St.noLb` in the driver)
+    let mut w = sink.begin_seq(hkind, &format!("profile={}{}", prof.name, if prof.name == "huge" { " lb=off" } else { "" }));
     let ovh = sink.ovh;
     let mut g = Gen { rng, prof: prof.clone(), ovh };
     let max = g.limit();
@@ -857,7 +883,8 @@ fn replay(sink: &mut Sink, path: &str) {
                     sink.end_seq(w);
                 }
                 let hk = t.split(' ').find_map(|x| x.strip_prefix("hasher=")).and_then(HKind::parse).unwrap_or(HKind::Mix);
-                w = Some(sink.begin_seq(hk, "replay"));
+                let lb_off = t.split(' ').any(|x| x == "lb=off");
+                w = Some(sink.begin_seq(hk, if lb_off { "replay lb=off" } else { "replay" }));
             }
             continue;
         }
